@@ -28,3 +28,32 @@ def load_known(pid):
         if e["property"] == pid and e["id"] in KNOWN:
             out[e["id"]] = e
     return out
+
+
+# ------------------------------------------------------------------------------------------ C02
+def _has_null_key(t):
+    return any(-999 in k for k in t.get("keys", []))
+
+
+@finding("C02-stringdtype-leading-null-chunked")
+def _kf_c02_a(t):
+    # pandas StringDtype keys (Series / Index / 'string') on the chunk-wise route whose first key is null:
+    # util.to_arrow -> pa.array(object array starting with NaN/NA) infers double / fails -> ArrowInvalid
+    return (t.get("out") == "raise" and t.get("exc") == "ArrowInvalid" and t.get("kenc") == ["str"]
+            and t.get("cfg", {}).get("kcont") in ("series", "index", "nullable")
+            and (t.get("cfg", {}).get("T") or 10 ** 6) < 10 ** 6
+            and t["keys"] and t["keys"][0] == [-999])
+
+
+@finding("C02-nullable-boolean-na")
+def _kf_c02_b(t):
+    # pandas nullable 'boolean' keys containing NA: factorize_1d views the object array as int8 -> TypeError
+    return (t.get("out") == "raise" and t.get("exc") == "TypeError" and t.get("kenc") == ["bool"]
+            and t.get("cfg", {}).get("kcont") == "nullable" and _has_null_key(t))
+
+
+@finding("C02-arrow-null-type-all-null")
+def _kf_c02_c(t):
+    # a pyarrow array of type null (all keys null): dictionary_encode keeps a null label
+    return (t.get("out") == "ok" and t.get("cfg", {}).get("kcont") == "pa_null"
+            and t["keys"] and all(k == [-999] for k in t["keys"]) and t.get("labels") == [[-999]])
